@@ -16,7 +16,6 @@ import (
 	"github.com/internetarchive/Zeno/internal/pkg/config"
 	"github.com/internetarchive/Zeno/internal/pkg/controler"
 	"github.com/internetarchive/Zeno/internal/pkg/controler/pause"
-	"github.com/internetarchive/Zeno/internal/pkg/reactor"
 	"github.com/internetarchive/Zeno/internal/pkg/verifhook"
 	"github.com/internetarchive/Zeno/internal/verif/vc"
 )
@@ -79,6 +78,11 @@ type pipeRun struct {
 	itemHooks    map[string]func(item any, seq int64)
 	eventHooks   []func(e pipeEvent)
 	stopCalled   atomic.Int64
+	// tracked shadows the size of the reactor's state table from the reactor.insert /
+	// reactor.finish.deleted events (both are emitted right after the table operation). The monitor
+	// goroutine must not call reactor.GetStateTable() while a stop may run elsewhere: that reads the
+	// package-level reactor pointer which Stop() clears, a race the harness itself would introduce.
+	tracked      atomic.Int64
 	stopReturned atomic.Int64
 	started      bool
 	actionsFired []string
@@ -148,6 +152,12 @@ func (p *pipeRun) installHooks(writeThrough bool) {
 			}
 		}
 		e := pipeEvent{Seq: s, Point: point, ID: id, URL: url, N: n}
+		switch point {
+		case "reactor.insert":
+			p.tracked.Add(1)
+		case "reactor.finish.deleted":
+			p.tracked.Add(-1)
+		}
 		p.evMu.Lock()
 		p.events = append(p.events, e)
 		p.counts[point]++
@@ -259,7 +269,7 @@ func (p *pipeRun) waitQuiescent(quietFor, stuckAfter, maxWall time.Duration) str
 			continue // a stop is in progress: wait for it (or for the watchdog)
 		}
 		quiet := time.Since(lastChange)
-		tracked := len(reactor.GetStateTable())
+		tracked := int(p.tracked.Load())
 		if quiet >= quietFor && tracked == 0 {
 			return "quiescent"
 		}
